@@ -420,6 +420,32 @@ impl Sphere3D {
             None => local_b,
         }
     }
+
+    /// Verification hook: read-only view of the private fields, in the order
+    /// `[zmin, zmax, phi_max, delta_theta, theta_min]` (as stored, i.e. after clamping
+    /// and conversion to radians)
+    #[cfg(geometry3d_verif)]
+    pub fn verif_fields(&self) -> [Float; 5] {
+        [
+            self.zmin,
+            self.zmax,
+            self.phi_max,
+            self.delta_theta,
+            self.theta_min,
+        ]
+    }
+
+    /// Verification hook: exposes the private `approx_basic_intersection`
+    /// (the hit point and its longitude `phi`, in local coordinates)
+    #[cfg(geometry3d_verif)]
+    pub fn verif_approx_basic_intersection(
+        &self,
+        ray: &Ray3D,
+        o_error: Point3D,
+        d_error: Point3D,
+    ) -> Option<(Point3D, Float)> {
+        self.approx_basic_intersection(ray, o_error, d_error)
+    }
 }
 
 #[cfg(test)]
